@@ -1,9 +1,14 @@
 """C32 — generated LR parsers accept exactly their grammar's language (DESIGN §4 C32).
 
-Level: translation_validation.  Coq side (Props/C32.v):
+Level: translation_validation.  Coq side (Props/C32.v, Props/C32_thorough.v):
   c32_sound              any tables passing the validator [tables_ok] make the parser model sound (unbounded)
-  c32_complete_bounded   builder model (repaired) + parser model complete on an enumerated family
-  c32_lookahead_refuted / c32_accept_refuted   lr.py as it is violates the property (two witnesses)
+  c32_safe               on validated tables the parser never ends in an internal error (unbounded)
+  c32_terminates/_total  with a checked termination certificate [term_ok] the fuel (|w|+1)*(bound+1) suffices
+  c32_complete_tables    validated tables + checked item-set certificate [complete_cert] => every sentence of
+                         the grammar is accepted (per instance, all words; Jourdan-Pottier-Leroy style)
+  c32_complete_bounded   builder model (repaired) + parser model complete on an enumerated family (<= 3 productions);
+  c32_complete_bounded4  thorough tier: the same for all 111930 grammars with exactly 4 productions
+  c32_lookahead_refuted / c32_accept_refuted   lr.py before the repairs violates the property (two witnesses)
 This module ties the Coq side to the current /repo:
   * the REAL tables of the real builder (exhaustive/sampled small grammars, the layout grammar, the
     assembler grammars that are LR(1)) are exported to Gen/lr_tables.v; inside coqc the validator is run on
@@ -28,11 +33,17 @@ RULE = ('small grammars: terminals a,b; nonterminals S (start), A; 1..3 producti
         '(150 quick / 1000 thorough): builder model vs real tables, validator, all words <= 4-5 vs brute-force '
         'derivability oracle. distinct non-trivial = (grammar, word) '
         'pairs whose grammar built without error and whose word is non-empty')
-EXPLANATION = ('c32_sound is unbounded over grammars, tables and inputs but speaks about the parser MODEL on tables '
-               'that pass the validator; the tie to the code is (1) per-run validation of the real tables in coqc, '
-               '(2) correspondence parser model == LrParser.parse on those tables. Completeness is bounded (family '
-               'and word length in the statement) and is about the builder MODEL (checked against the real builder '
-               'modulo state renumbering). Not modelled: lexers (BaseLexer/SimpleLexer), the Earley parser, yacc '
+EXPLANATION = ('c32_sound / c32_safe are unbounded over grammars, tables and inputs but speak about the parser MODEL on '
+               'tables that pass the validator; c32_terminates adds an explicit fuel bound under the certificate check '
+               'term_ok (weights/ranks are an untrusted hint computed by a heuristic in this module; about 1% of the small '
+               'grammars get no certificate because ranks only see the top state); c32_complete_tables gives completeness '
+               'for ALL words per instance under complete_cert, which is run in coqc on the item sets of the real builder '
+               '(captured by an observation hook on gen_canonical_set) with independently computed FIRST/nullable hints; it '
+               'is stated for the repaired Accept handling and is not expected to hold when a shift/reduce conflict was '
+               'resolved or when the start symbol derives itself. The tie to the code is (1) per-run validation of the real '
+               'tables/item sets in coqc, (2) correspondence parser model == LrParser.parse on those tables. Bounded '
+               'completeness (family and word length in the statement) is about the builder MODEL (checked against the real '
+               'builder modulo state renumbering). Not modelled: lexers (BaseLexer/SimpleLexer), the Earley parser, yacc '
                'file generation, semantic action side effects (actions are modelled as tree construction).')
 TRUSTED = ['table exporter in tools/props/c32.py (symbol numbering, state renumbering by BFS)',
            'hand models Model/LrValidator.v (parse) and Model/LrBuilder.v (builder), cross-checked per run',
@@ -40,6 +51,8 @@ TRUSTED = ['table exporter in tools/props/c32.py (symbol numbering, state renumb
            'Python dict/set semantics as modelled (unique keys; item/state iteration order does not matter '
            'except for which conflict is reported first)']
 ASSUMPTIONS = ['token streams end with EOF tokens for ever and contain no EOF token before the end',
+               'c32_terminates / c32_complete_tables hold for the instances whose certificates pass term_ok / complete_cert '
+               '(counts in coverage.stages.correspondence_distribution)',
                'bounded completeness: 12383 grammars, words of length <= 4, fuel 80 (proved sufficient)']
 
 EOFN, EPSN = 0, 1
@@ -99,10 +112,19 @@ def real_build(g):
                 if {type(a2).__name__, type(action).__name__} == {'Shift', 'Reduce'}:
                     flag['sr'] = True
             return super().set_action(state, t, action)
+
+        def gen_canonical_set(self, iis):           # observation hook only: keep the item sets
+            res = super().gen_canonical_set(iis)
+            try:
+                flag['items'] = {res[2][st]: [(g.productions.index(it.production), it.dotpos, it.look_ahead)
+                                              for it in st] for st in res[0]}
+            except Exception:   # noqa: BLE001
+                flag['items'] = None
+            return res
     try:
         b = B(g)
         p = b.generate_parser()
-        return ('ok', p, dict(p.action_table), dict(p.goto_table), flag['sr'])
+        return ('ok', p, dict(p.action_table), dict(p.goto_table), flag['sr'], flag.get('items'))
     except PGE:
         return ('diag',)
     except Exception:   # noqa: BLE001
@@ -185,6 +207,97 @@ def coq_tables(action_table, goto_table, num, ren=None):
     gts = ['((%d, %d), %d)' % (r(s), num[n], r(t))
            for (s, n), t in sorted(goto_table.items(), key=lambda kv: (r(kv[0][0]), num[kv[0][1]]))]
     return 'mkTables [%s] [%s]' % ('; '.join(acts), '; '.join(gts))
+
+
+def term_cert(at, gt, prods, ren=None):
+    """termination certificate for Model.LrValidator.term_ok (untrusted hint, checked in Coq): weight 2n+2 for
+    states entered by a shift, 1 for states entered by a goto; ranks = longest paths over the abstract reduce
+    edges (Bellman-Ford). Returns Coq text of a tcert or None when the heuristic finds none."""
+    ren = ren or {}
+    rn = lambda q: ren.get(q, q)   # noqa: E731
+    states, preds, shifted = {0}, {}, set()
+    for (s, t), a in at.items():
+        states.add(s)
+        if type(a).__name__ == 'Shift':
+            preds.setdefault(a.to_state, []).append(s)
+            states.add(a.to_state)
+            shifted.add(a.to_state)
+    for (s, X), t in gt.items():
+        states.update((s, t))
+        preds.setdefault(t, []).append(s)
+    W = 2 * len(states) + 2
+    w = {q: (W if q in shifted else 1) for q in states}
+    edges = []
+    for (s, t), a in at.items():
+        k = type(a).__name__
+        if k == 'Shift':
+            continue
+        lhs, rhs = prods[a.rule]
+        paths = [(s, 0)]
+        for _ in rhs:
+            paths = [(p, acc + w[q]) for (q, acc) in paths for p in preds.get(q, [])]
+            if len(paths) > 20000:
+                return None
+        for (s0, acc) in paths:
+            s2 = gt.get((s0, lhs))
+            if s2 is not None and not (k == 'Accept' and s0 == 0):
+                edges.append(((s, t), (s2, t), 1 + w[s2] - acc))
+    r = {}
+    nodes = {e[0] for e in edges} | {e[1] for e in edges}
+    for _ in range(len(nodes) + 2):
+        ch = False
+        for a, b, c in edges:
+            v = r.get(b, 0) + c
+            if v > r.get(a, 0):
+                r[a] = v
+                ch = True
+        if not ch:
+            return w, r
+    return None
+
+
+def coq_tcert(cert, num, ren=None):
+    ren = ren or {}
+    w, r = cert
+    return 'mkTcert [%s] [%s]' % (
+        '; '.join('(%d, %d%%nat)' % (ren.get(q, q), v) for q, v in sorted(w.items())),
+        '; '.join('((%d, %d), %d%%nat)' % (ren.get(q, q), num[t], v) for (q, t), v in sorted(r.items()) if v > 0))
+
+
+def coq_ccert(items, terms, prods, num, ren=None):
+    """completeness certificate (untrusted, checked by Model.LrComplete.complete_cert): the real builder's item
+    sets + independently computed nullable / FIRST hints"""
+    ren = ren or {}
+    first, nullable = ref_first_sets(set(terms), prods)
+    its = '; '.join('(%d, [%s])' % (ren.get(st, st), '; '.join(
+        '(%d%%nat, %d%%nat, %d)' % (p, d, num[a]) for (p, d, a) in sorted(l, key=lambda x: (x[0], x[1], num[x[2]]))))
+        for st, l in sorted(items.items(), key=lambda kv: ren.get(kv[0], kv[0])))
+    return 'mkCcert [%s] [%s] [%s]' % (
+        its, '; '.join(str(num[x]) for x in sorted(nullable, key=lambda x: num[x])),
+        '; '.join('(%d, [%s])' % (num[x], '; '.join(str(num[c]) for c in sorted(f, key=lambda c: num[c])))
+                  for x, f in sorted(first.items(), key=lambda kv: num[kv[0]])))
+
+
+def start_cycle_at_bottom(items, terms, prods, start):
+    """the one situation the completeness certificate rejects by design: an item of state 0 has the start symbol
+    after the dot and EOF can follow it (the start symbol derives itself, S =>+ S): complete_cert is not expected
+    to hold for such cyclic grammars"""
+    first, nullable = ref_first_sets(set(terms), prods)
+    nts = {l for l, _ in prods}
+    for (p, d, a) in items.get(0, []):
+        rhs = prods[p][1]
+        if d < len(rhs) and rhs[d] == start:
+            fol, allnull = set(), True
+            for x in rhs[d + 1:]:
+                fol |= first[x] if x in nts else {x}
+                if x not in nullable:
+                    allnull = False
+                    break
+            if allnull:
+                fol.add(a)
+            if 'EOF' in fol:
+                return True
+    return False
 
 
 def coq_grammar(terms, prods, start, num):
@@ -633,7 +746,7 @@ def regen(ctx):
         ctx.c32_variant = (run_witness(W_LA)[0], run_witness(W_RR)[0])
     fxf, fxa = ctx.c32_variant
     lines = ['(* generated by tools/props/c32.py from the real LrParserBuilder tables; do not edit *)',
-             'From PV Require Import Lib.Py Spec.CfgGrammarSpec Model.LrValidator.',
+             'From PV Require Import Lib.Py Spec.CfgGrammarSpec Model.LrValidator Model.LrComplete.',
              'Open Scope Z_scope.',
              'Definition FXF : bool := %s.   (* implementation has the repaired lookahead *)' % ('true' if fxf else 'false'),
              'Definition FXA : bool := %s.   (* implementation has the repaired accept *)' % ('true' if fxa else 'false')]
@@ -658,6 +771,13 @@ def regen(ctx):
         if b[0] == 'ok':
             ren = renumber(b[2], b[3], nts + FAM_T)
             lines.append('Definition T%d : tables := %s.' % (k, coq_tables(b[2], b[3], FAM_NUM, ren)))
+            cert = term_cert(b[2], b[3], prods)
+            ent['cert'] = cert is not None
+            if cert:
+                lines.append('Definition C%d : tcert := %s.' % (k, coq_tcert(cert, FAM_NUM, ren)))
+            ent['ccert'] = bool(b[5]) and not b[4] and fxf and fxa and not start_cycle_at_bottom(b[5], FAM_T, prods, 'S')
+            if ent['ccert']:
+                lines.append('Definition I%d : ccert := %s.' % (k, coq_ccert(b[5], FAM_T, prods, FAM_NUM, ren)))
             ent['sr'] = b[4]
             ent['parses'] = [real_parse(b[1], w) for w in words]
         exp['family'].append(ent)
@@ -669,7 +789,13 @@ def regen(ctx):
         ren = renumber(b[2], b[3], nts + terms)
         lines.append('Definition gr%d : grammar := %s.' % (k, coq_grammar(terms, prods, 'S', RG_NUM)))
         lines.append('Definition Tr%d : tables := %s.' % (k, coq_tables(b[2], b[3], RG_NUM, ren)))
-        exp['random'].append({'k': k, 'terms': terms, 'prods': prods, 'words': ws,
+        cert = term_cert(b[2], b[3], prods)
+        if cert:
+            lines.append('Definition Cr%d : tcert := %s.' % (k, coq_tcert(cert, RG_NUM, ren)))
+        cc = bool(b[5]) and not b[4] and fxf and fxa and not start_cycle_at_bottom(b[5], terms, prods, 'S')
+        if cc:
+            lines.append('Definition Ir%d : ccert := %s.' % (k, coq_ccert(b[5], terms, prods, RG_NUM, ren)))
+        exp['random'].append({'k': k, 'terms': terms, 'prods': prods, 'words': ws, 'cert': cert is not None, 'ccert': cc,
                               'parses': [real_parse(b[1], w) for w in ws]})
     for (nm, terms, prods, start) in real_grammars(ctx):
         num = numbering(terms, prods)
@@ -679,6 +805,14 @@ def regen(ctx):
         if b[0] == 'ok':
             lines.append('Definition g_%s : grammar := %s.' % (nm, coq_grammar(terms, prods, start, num)))
             lines.append('Definition T_%s : tables := %s.' % (nm, coq_tables(b[2], b[3], num)))
+            cert = term_cert(b[2], b[3], prods)
+            ent['cert'] = cert is not None
+            if cert:
+                lines.append('Definition C_%s : tcert := %s.' % (nm, coq_tcert(cert, num)))
+            ent['ccert'] = (bool(b[5]) and not b[4] and fxf and fxa and (nm == 'layout' or not ctx.quick())
+                            and not start_cycle_at_bottom(b[5], terms, prods, start))
+            if ent['ccert']:
+                lines.append('Definition I_%s : ccert := %s.' % (nm, coq_ccert(b[5], terms, prods, num)))
             sents = gen_sentences(ctx.rng, terms, prods, start, 14 if ctx.quick() else 60)
             ent['sents'] = sents
             ent['parses'] = [real_parse(b[1], s) for s in sents]
@@ -722,15 +856,32 @@ def run(ctx):
     exp = regen(ctx)
     tm['regen'] = round(time.time() - t0, 1)
     t0 = time.time()
-    ok, _ = ctx.build(['Proofs/C32_sound.vo', 'Proofs/C32_complete.vo', 'Gen/lr_tables.vo'])
+    ok, _ = ctx.build(['Proofs/C32_sound.vo', 'Proofs/C32_complete.vo', 'Proofs/C32_safe.vo', 'Proofs/C32_cert.vo',
+                       'Gen/lr_tables.vo'])
     if ok:
         ctx.check_props('Props/C32.v')
+    if not ctx.quick():     # larger bounded family (about 5 minutes of vm_compute the first time)
+        if ctx.build(['Proofs/C32_complete_big.vo'], timeout=3000)[0]:
+            # coqc + Print Assumptions only: coqchk re-evaluates the 5-minute vm_compute of the 111930-grammar family
+            # with its slower reduction machine (> 25 min), which does not fit the tier budget. coqchk still runs on
+            # Props/C32.v (all unbounded theorems and the <= 3 production family).
+            import os
+            prev = os.environ.get('VERIF_COQCHK')
+            os.environ['VERIF_COQCHK'] = '0'
+            try:
+                ctx.check_props('Props/C32_thorough.v')
+            finally:
+                if prev is None:
+                    os.environ.pop('VERIF_COQCHK', None)
+                else:
+                    os.environ['VERIF_COQCHK'] = prev
+            ctx.cov['stages']['coqchk_skipped'] = 'Props/C32_thorough.v (vm_compute too long for coqchk; coqc-checked)'
     tm['build_and_props'] = round(time.time() - t0, 1)
     t0 = time.time()
     if ctx.build(['Gen/lr_tables.vo', 'Model/LrBuilder.vo', 'Lib/Val.vo'])[0]:
         cases, recs = [], []
         dist = {'family_ok': 0, 'family_builder_error': 0, 'family_sr_resolved': 0, 'accepted': 0, 'rejected': 0,
-                'internal': 0}
+                'internal': 0, 'term_certified': 0, 'term_uncertified': 0, 'complete_cert': 0}
         for ent in exp['family']:
             k = ent['k']
             if ent['build'] == 'ok':
@@ -740,6 +891,14 @@ def run(ctx):
                 recs.append(('builder', ent, None))
                 cases.append(('tables_ok FXA g%d T%d' % (k, k), True))
                 recs.append(('validator', ent, None))
+                dist['term_certified' if ent.get('cert') else 'term_uncertified'] += 1
+                if ent.get('cert'):
+                    cases.append(('term_ok FXA g%d T%d C%d' % (k, k, k), True))
+                    recs.append(('termination', ent, None))
+                if ent.get('ccert'):
+                    dist['complete_cert'] += 1
+                    cases.append(('complete_cert g%d T%d I%d' % (k, k, k), True))
+                    recs.append(('completeness', ent, None))
                 cases.append(('map (parse_model FXA 200 g%d T%d) words4' % (k, k), ent['parses']))
                 recs.append(('parser', ent, None))
                 for w, r in zip(words, ent['parses']):
@@ -756,6 +915,14 @@ def run(ctx):
             recs.append(('builder', ent, None))
             cases.append(('tables_ok FXA gr%d Tr%d' % (k, k), True))
             recs.append(('validator', ent, None))
+            dist['term_certified' if ent.get('cert') else 'term_uncertified'] += 1
+            if ent.get('cert'):
+                cases.append(('term_ok FXA gr%d Tr%d Cr%d' % (k, k, k), True))
+                recs.append(('termination', ent, None))
+            if ent.get('ccert'):
+                dist['complete_cert'] += 1
+                cases.append(('complete_cert gr%d Tr%d Ir%d' % (k, k, k), True))
+                recs.append(('completeness', ent, None))
             cases.append(('map (parse_model FXA 400 gr%d Tr%d) [%s]' % (k, k, '; '.join(
                 '[%s]' % '; '.join(str(RG_NUM[t]) for t in w) for w in ent['words'])), ent['parses']))
             recs.append(('parser', ent, None))
@@ -771,6 +938,16 @@ def run(ctx):
             nm = ent['name']
             cases.append(('tables_ok FXA g_%s T_%s' % (nm, nm), True))
             recs.append(('validator', ent, None))
+            dist['term_certified' if ent.get('cert') else 'term_uncertified'] += 1
+            if ent.get('cert'):
+                cases.append(('term_ok FXA g_%s T_%s C_%s' % (nm, nm, nm), True))
+                recs.append(('termination', ent, None))
+            else:
+                ctx.log('no termination certificate found for the tables of', nm, '(heuristic; informational)')
+            if ent.get('ccert'):
+                dist['complete_cert'] += 1
+                cases.append(('complete_cert g_%s T_%s I_%s' % (nm, nm, nm), True))
+                recs.append(('completeness', ent, None))
             for s, r in zip(ent['sents'], ent['parses']):
                 cases.append(('parse_model FXA 2000 g_%s T_%s [%s]' % (nm, nm, '; '.join(str(ent['num'][t]) for t in s)), r))
                 recs.append(('parser', ent, s))
@@ -783,7 +960,7 @@ def run(ctx):
         for ent in exp['family'][:3]:
             ctx.note_sample({'grammar': gname(ent['prods']), 'build': ent['build'],
                              'accepted_words': [' '.join(w) for w, r in zip(words, ent.get('parses', [])) if isinstance(r, OkV)][:6]})
-        bad = ctx.run_cases('lr', ['Gen.lr_tables', 'Model.LrValidator', 'Model.LrBuilder'], cases, shard=150)
+        bad = ctx.run_cases('lr', ['Gen.lr_tables', 'Model.LrValidator', 'Model.LrBuilder', 'Model.LrComplete'], cases, shard=150)
         if bad:
             kinds = {}
             for i in bad:
@@ -808,6 +985,8 @@ def run(ctx):
                 ctx.log('%s: %d disagreements, first: %s %s' % (kind, len(l), l[0][0], l[0][1] or ''))
                 what = {'builder': 'Model.LrBuilder disagrees with LrParserBuilder (tables modulo renumbering)',
                         'validator': 'real tables are rejected by the verified validator tables_ok',
+                        'termination': 'exported termination certificate is rejected by term_ok',
+                        'completeness': 'real item sets + tables are rejected by the completeness check complete_cert',
                         'parser': 'Model.LrValidator.parse_model disagrees with LrParser.parse'}[kind]
                 ctx.failed_stages.append(('correspondence_' + kind, '%s on %d cases, first: %s %s' % (what, len(l), l[0][0], l[0][1] or '')))
     tm['correspondence'] = round(time.time() - t0, 1)
@@ -830,15 +1009,20 @@ def run(ctx):
 
 
 MANIFEST = {
-    'text': 'translation validation: a Coq-verified validator (tables_ok) is run inside coqc on the action/goto tables the '
-            'real LrParserBuilder produces (sampled/exhaustive small grammars, the layout grammar, LR(1) assembler grammars); '
-            'theorem c32_sound (unbounded) shows that on validated tables every accepted token sequence is a sentence and the '
-            'value is its parse tree; bounded completeness (12383 small grammars, words <= 4) is proved for the builder model '
-            'with a proved-complete derivability table; two refutation theorems record that lr.py as it is loses lookaheads '
-            'behind nullable symbols and accepts at inner reductions of a recursive start symbol',
-    'note': 'trusted: Coq kernel, table exporter, hand models of LrParser.parse and LrParserBuilder (compared with the '
-            'implementation on every run: parser on all words <= 4 / generated sentences, builder tables modulo state '
-            'renumbering), actions modelled as tree construction. Lexers, Earley parser and yacc file output are not modelled. '
-            'Green only with fixes/C32-lookahead-nullable.diff and fixes/C32-accept-recursive-start.diff applied.',
-    'technique': 'verified validator + hand model correspondence + bounded vm_compute',
+    'text': 'translation validation: Coq-verified checkers are run inside coqc on what the real LrParserBuilder produces '
+            '(sampled/exhaustive small grammars, seeded larger grammars with planted nullable chains, the layout grammar, '
+            'LR(1) assembler grammars): tables_ok on the action/goto tables, term_ok on a termination certificate, '
+            'complete_cert on the LR(1) item sets. Theorems (all unbounded in the input): c32_sound (accepted => sentence, '
+            'value = its parse tree), c32_safe (no internal error), c32_terminates/c32_total (explicit fuel bound, result is '
+            'a parse tree or ParserException), c32_complete_tables (every sentence is accepted, per validated instance). '
+            'Bounded completeness of the builder model: all grammars with <= 3 productions (quick) and all with 4 productions '
+            '(thorough), rhs <= 2, 2 terminals + 2 nonterminals, words <= 4, with a proved-complete derivability table. Two '
+            'refutation theorems record the defects of lr.py before the repairs (lookahead behind nullable symbols, accept '
+            'at inner reductions of a recursive start symbol)',
+    'note': 'trusted: Coq kernel, table/item-set exporter, hand models of LrParser.parse and LrParserBuilder (compared with '
+            'the implementation on every run: parser on all words <= 4 / generated sentences, builder tables modulo state '
+            'renumbering), actions modelled as tree construction. Certificates (weights/ranks, item sets, FIRST/nullable) '
+            'are untrusted hints checked in Coq. Lexers, Earley parser and yacc file output are not modelled. Requires the '
+            'repairs C32-lookahead-nullable and C32-accept-recursive-start (applied in /repo).',
+    'technique': 'verified validators (safety, termination, completeness certificates) + hand model correspondence + bounded vm_compute',
 }
